@@ -230,6 +230,24 @@ deriving Repr, DecidableEq
 /-- `*gtab.PairAdjust` -/
 abbrev PairAdj := Option VR × Option VR
 
+/-- a nested action of a contextual rule: `(lookup index, sequence index)`, written `index@position` -/
+abbrev Action := Nat × Nat
+
+/-- a contextual rule: the input after its first element (glyphs or classes) and the actions -/
+structure SeqRule where
+  input : List Nat
+  actions : List Action
+deriving Repr, DecidableEq
+
+/-- a chained contextual rule; the backtrack sequence is stored closest element first (as in the
+font), the notation writes it in reading order -/
+structure ChRule where
+  back : List Nat
+  input : List Nat
+  look : List Nat
+  actions : List Action
+deriving Repr, DecidableEq
+
 inductive Subtable where
   | gsub1_1 (cov : List Nat) (delta : Nat)
   | gsub1_2 (cov : List Nat) (subst : List Nat)
@@ -247,6 +265,20 @@ inductive Subtable where
   /-- mark-to-base: mark records `(glyph, class, x, y)` and base records `(glyph, anchors)`, both in
   ascending glyph order -/
   | gpos4_1 (marks : List (Nat × Nat × Int × Int)) (bases : List (Nat × List (Int × Int)))
+  /-- contextual, format 1: first glyph ↦ its rules `(rest of the input, actions)`, glyphs ascending;
+  an action is `(lookup index, sequence index)` -/
+  | ctx1 (rules : List (Nat × List SeqRule))
+  /-- contextual, format 2: coverage, class table `(glyph, class)` sorted by glyph, rules per class
+  (index 0 … number of classes) as `(rest of the input classes, actions)` -/
+  | ctx2 (cov : List Nat) (classes : List (Nat × Nat)) (rules : List (List SeqRule))
+  /-- contextual, format 3: one glyph set per input position -/
+  | ctx3 (input : List (List Nat)) (actions : List Action)
+  /-- chained contextual, format 1; a rule is `(backtrack, rest of input, lookahead, actions)`, the
+  backtrack sequence stored closest glyph first (as in the font) -/
+  | chain1 (rules : List (Nat × List ChRule))
+  | chain2 (cov : List Nat) (bcls icls lcls : List (Nat × Nat))
+      (rules : List (List ChRule))
+  | chain3 (back input look : List (List Nat)) (actions : List Action)
 deriving Repr, DecidableEq
 
 structure Lookup where
@@ -677,6 +709,285 @@ def readGpos4 (f : Font) (fuel : Nat) : PM Lookup := do
   let subs ← subtablesLoop (gpos4Sub f fuel) fuel []
   pure { typ := 4, flags := flags, subtables := subs }
 
+/-! ### contextual and chained contextual lookups (GSUB 5/6, GPOS 7/8) -/
+
+def kwClass : List Nat := [99, 108, 97, 115, 115]
+def kwInputclass : List Nat := [105, 110, 112, 117, 116] ++ kwClass
+def kwBacktrackclass : List Nat := [98, 97, 99, 107, 116, 114, 97, 99, 107] ++ kwClass
+def kwLookaheadclass : List Nat := [108, 111, 111, 107, 97, 104, 101, 97, 100] ++ kwClass
+#guard kwClass == lit "class" && kwInputclass == lit "inputclass" && kwBacktrackclass == lit "backtrackclass" &&
+  kwLookaheadclass == lit "lookaheadclass"
+
+/-- a 16-bit number of `readNestedLookups` (`strconv.Atoi` and the range check) -/
+def u16Of (t : Tok) : Option Nat :=
+  match atoi t.bytes with
+  | none => none
+  | some v => if v < 0 || v ≥ 65536 then none else some v.toNat
+
+def isInt (t : Tok) : Bool := t.typ == tInteger
+
+/-- `readNestedLookups`: `index@position` as long as integers follow -/
+def nestedLoop : Nat → List Action → PM (List Action)
+  | 0, _ => throw { line := 0, cls := errFuel }
+  | n + 1, acc => do
+    match ← takeIf isInt with
+    | none => pure acc
+    | some item =>
+      match u16Of item with
+      | none => fatal "invalid lookup index"
+      | some idx => do
+        let _ ← required tAt
+        let item2 ← readItem
+        if item2.typ != tInteger then fatal "invalid lookup position"
+        else
+          match u16Of item2 with
+          | none => fatal "invalid lookup position"
+          | some pos => nestedLoop n (acc ++ [(idx, pos)])
+
+/-- `readClassName`: `:name:` or `::` (class 0, the empty name) -/
+def readClassName : PM (List Nat) := do
+  let _ ← required tColon
+  let item ← readItem
+  if item.typ == tIdentifier then do
+    let _ ← required tColon
+    pure item.bytes
+  else if item.typ == tColon then pure []
+  else fatal "expected class name"
+
+/-- `readClassNames` -/
+def classNamesLoop : Nat → List (List Nat) → PM (List (List Nat))
+  | 0, _ => throw { line := 0, cls := errFuel }
+  | n + 1, acc => do
+    let next ← peek
+    if next.typ != tColon then pure acc
+    else do
+      let nm ← readClassName
+      classNamesLoop n (acc ++ [nm])
+
+/-- a class-definition keyword: the identifier `kw` followed by `:` (a glyph may have the same
+name; the colon decides).  The keyword is consumed, the colon is not. -/
+def optionalKeyword (kw : List Nat) : PM Bool := do
+  let t ← readItem
+  if isIdent t kw then do
+    let t2 ← peek
+    if t2.typ == tColon then pure true
+    else do pushBack t; pure false
+  else do pushBack t; pure false
+
+/-- `parseClassDef` after its keyword: `:name: = [glyphs]` -/
+def parseClassDef (f : Font) (fuel : Nat) : PM (List Nat × List Nat) := do
+  let _ ← required tColon
+  let name ← readIdentifier
+  let _ ← required tColon
+  let _ ← optional [tEqual]
+  let gids ← readGlyphSet f fuel
+  if gids.isEmpty then fatal "empty class" else pure (name, gids)
+
+/-- class names in the order of their definition (class number = position + 1) and the class table
+in insertion order -/
+abbrev ClsSt := List (List Nat) × List (Nat × Nat)
+
+/-- register a class definition: the name must be new and no glyph may have a class already -/
+def addClass (dupMsg ovlMsg : String) (st : ClsSt) (name : List Nat) (gids : List Nat) : PM ClsSt :=
+  if st.1.contains name then fatal dupMsg
+  else if gids.any (fun g => (aget st.2 g).isSome) then fatal ovlMsg
+  else pure (st.1 ++ [name], st.2 ++ gids.map fun g => (g, st.1.length + 1))
+
+/-- the number of the class called `nm`: its position (from `i`) in the list of defined names -/
+def findCls : List (List Nat) → List Nat → Nat → Option Nat
+  | [], _, _ => none
+  | x :: xs, nm, i => if x == nm then some i else findCls xs nm (i + 1)
+
+/-- class numbers of a list of names; the empty name is class 0 -/
+def resolveNames (idx : List (List Nat)) : List (List Nat) → PM (List Nat)
+  | [] => pure []
+  | nm :: rest =>
+    if nm.isEmpty then do
+      let r ← resolveNames idx rest
+      pure (0 :: r)
+    else if (findCls idx nm 1).isSome then do
+      let r ← resolveNames idx rest
+      pure ((findCls idx nm 1).getD 0 :: r)
+    else fatal "undefined class"
+
+/-- `rules[i] = append(rules[i], rule)` -/
+def appendIdx {β : Type} : List (List β) → Nat → β → List (List β)
+  | [], _, _ => []
+  | r :: rs, 0, v => (r ++ [v]) :: rs
+  | r :: rs, i + 1, v => r :: appendIdx rs i v
+
+/-- the map of format 1 as coverage-ordered list -/
+def byGlyph {β : Type} (res : List (Nat × List β)) : List (Nat × List β) :=
+  (keysAsc res).map fun g => (g, (aget res g).getD [])
+
+/-- one rule of contextual format 1: `glyphs -> actions` -/
+def ctx1Rule (f : Font) (fuel : Nat) (res : List (Nat × List SeqRule)) : PM (List (Nat × List SeqRule)) := do
+  let input ← readGlyphList f fuel
+  let _ ← required tArrow
+  let actions ← nestedLoop fuel []
+  if input.isEmpty then do
+    let _ ← readItem
+    fatal "expected at least one glyph"
+  else pure (appendAt res (input.headD 0) ⟨input.drop 1, actions⟩)
+
+/-- one rule of contextual format 2: `:c1: :: -> actions` -/
+def ctx2Rule (fuel : Nat) (idx : List (List Nat)) (rules : List (List SeqRule)) : PM (List (List SeqRule)) := do
+  let names ← classNamesLoop fuel []
+  let _ ← required tArrow
+  let actions ← nestedLoop fuel []
+  if names.isEmpty then fatal "no input classes given"
+  else
+    let input ← resolveNames idx names
+    pure (appendIdx rules (input.headD 0) ⟨input.drop 1, actions⟩)
+
+/-- glyph sets `[…] […]` until an item of kind `stop` has been taken; at least one set -/
+def setsThen (f : Font) (fuel stop : Nat) : Nat → List (List Nat) → PM (List (List Nat))
+  | 0, _ => throw { line := 0, cls := errFuel }
+  | n + 1, acc => do
+    let s ← readGlyphSet f fuel
+    if (← optional [stop]) then pure (acc ++ [s]) else setsThen f fuel stop n (acc ++ [s])
+
+/-- glyph sets until an item of kind `stop` has been taken; possibly none -/
+def setsUntil (f : Font) (fuel stop : Nat) : Nat → List (List Nat) → PM (List (List Nat))
+  | 0, _ => throw { line := 0, cls := errFuel }
+  | n + 1, acc => do
+    if (← optional [stop]) then pure acc
+    else
+      let s ← readGlyphSet f fuel
+      setsUntil f fuel stop n (acc ++ [s])
+
+/-- the subtable loop of `readSeqCtx`; the class definitions read so far are kept until a
+format 2 subtable uses them -/
+def ctxLoop (f : Font) (fuel : Nat) : Nat → ClsSt → List Subtable → PM (List Subtable)
+  | 0, _, _ => throw { line := 0, cls := errFuel }
+  | n + 1, st, acc => do
+    if (← optionalKeyword kwClass) then do
+      let d ← parseClassDef f fuel
+      let st' ← addClass "duplicate class" "overlapping classes" st d.1 d.2
+      let _ ← optional [tEOL]
+      ctxLoop f fuel n st' acc
+    else do
+      let next ← peek
+      let r ← (if next.typ == tSlash then do
+          let _ ← required tSlash
+          let firstGlyphs ← readGlyphList f fuel
+          let _ ← required tSlash
+          let rules ← pairsLoop (ctx2Rule fuel st.1) fuel (List.replicate (st.1.length + 1) [])
+          pure (Subtable.ctx2 (sortUnique firstGlyphs) (sortByGlyph st.2) rules, (([], []) : ClsSt))
+        else if next.typ == tSquareBracketOpen then do
+          let input ← setsThen f fuel tArrow fuel []
+          let actions ← nestedLoop fuel []
+          pure (Subtable.ctx3 input actions, st)
+        else do
+          let res ← pairsLoop (ctx1Rule f fuel) fuel []
+          pure (Subtable.ctx1 (byGlyph res), st))
+      if !(← optional [tOr]) then pure (acc ++ [r.1])
+      else do
+        let _ ← optional [tEOL]
+        ctxLoop f fuel n r.2 (acc ++ [r.1])
+
+def readSeqCtx (f : Font) (fuel typ : Nat) : PM Lookup := do
+  let flags ← header fuel
+  let subs ← ctxLoop f fuel fuel ([], []) []
+  pure { typ := typ, flags := flags, subtables := subs }
+
+/-- one rule of chained format 1: `backtrack | input | lookahead -> actions` -/
+def chain1Rule (f : Font) (fuel : Nat) (res : List (Nat × List ChRule)) : PM (List (Nat × List ChRule)) := do
+  let backtrack ← readGlyphList f fuel
+  let _ ← required tBar
+  let input ← readGlyphList f fuel
+  let _ ← required tBar
+  let lookahead ← readGlyphList f fuel
+  let _ ← required tArrow
+  let actions ← nestedLoop fuel []
+  if input.isEmpty then do
+    let _ ← readItem
+    fatal "expected at least one glyph"
+  else pure (appendAt res (input.headD 0) ⟨backtrack.reverse, input.drop 1, lookahead, actions⟩)
+
+/-- one rule of chained format 2 -/
+def chain2Rule (fuel : Nat) (bidx iidx lidx : List (List Nat)) (rules : List (List ChRule)) :
+    PM (List (List ChRule)) := do
+  let bnames ← classNamesLoop fuel []
+  let _ ← required tBar
+  let inames ← classNamesLoop fuel []
+  let _ ← required tBar
+  let lnames ← classNamesLoop fuel []
+  let _ ← required tArrow
+  let actions ← nestedLoop fuel []
+  if inames.isEmpty then fatal "no input classes given"
+  else
+    let input ← resolveNames iidx inames
+    let backtrack ← resolveNames bidx bnames
+    let lookahead ← resolveNames lidx lnames
+    pure (appendIdx rules (input.headD 0) ⟨backtrack.reverse, input.drop 1, lookahead, actions⟩)
+
+/-- the three class tables of `readChainedSeqCtx` -/
+structure ChSt where
+  b : ClsSt
+  i : ClsSt
+  l : ClsSt
+
+def ChSt.empty : ChSt := { b := ([], []), i := ([], []), l := ([], []) }
+
+/-- the kind of the next item, or of the one after it when the next is `|` (nothing is consumed) -/
+def peekType2 : PM Nat := do
+  let next ← readItem
+  if next.typ == tBar then do
+    let t ← peek
+    pushBack next
+    pure t.typ
+  else do
+    pushBack next
+    pure next.typ
+
+/-- the subtable loop of `readChainedSeqCtx` -/
+def chainLoop (f : Font) (fuel : Nat) : Nat → ChSt → List Subtable → PM (List Subtable)
+  | 0, _, _ => throw { line := 0, cls := errFuel }
+  | n + 1, st, acc => do
+    if (← optionalKeyword kwInputclass) then do
+      let d ← parseClassDef f fuel
+      let c ← addClass "duplicate input class" "overlapping input classes" st.i d.1 d.2
+      let _ ← optional [tEOL]
+      chainLoop f fuel n { st with i := c } acc
+    else if (← optionalKeyword kwBacktrackclass) then do
+      let d ← parseClassDef f fuel
+      let c ← addClass "duplicate backtrack class" "overlapping backtrack classes" st.b d.1 d.2
+      let _ ← optional [tEOL]
+      chainLoop f fuel n { st with b := c } acc
+    else if (← optionalKeyword kwLookaheadclass) then do
+      let d ← parseClassDef f fuel
+      let c ← addClass "duplicate lookahead class" "overlapping lookahead classes" st.l d.1 d.2
+      let _ ← optional [tEOL]
+      chainLoop f fuel n { st with l := c } acc
+    else do
+      let nextType ← peekType2
+      let r ← (if nextType == tSlash then do
+          let _ ← required tSlash
+          let firstGlyphs ← readGlyphList f fuel
+          let _ ← required tSlash
+          let rules ← pairsLoop (chain2Rule fuel st.b.1 st.i.1 st.l.1) fuel (List.replicate (st.i.1.length + 1) [])
+          pure (Subtable.chain2 (sortUnique firstGlyphs) (sortByGlyph st.b.2) (sortByGlyph st.i.2)
+            (sortByGlyph st.l.2) rules, ChSt.empty)
+        else if nextType == tSquareBracketOpen then do
+          let back ← setsUntil f fuel tBar fuel []
+          let input ← setsThen f fuel tBar fuel []
+          let look ← setsUntil f fuel tArrow fuel []
+          let actions ← nestedLoop fuel []
+          pure (Subtable.chain3 back.reverse input look actions, st)
+        else do
+          let res ← pairsLoop (chain1Rule f fuel) fuel []
+          pure (Subtable.chain1 (byGlyph res), st))
+      if !(← optional [tOr]) then pure (acc ++ [r.1])
+      else do
+        let _ ← optional [tEOL]
+        chainLoop f fuel n r.2 (acc ++ [r.1])
+
+def readChainedSeqCtx (f : Font) (fuel typ : Nat) : PM Lookup := do
+  let flags ← header fuel
+  let subs ← chainLoop f fuel fuel ChSt.empty []
+  pure { typ := typ, flags := flags, subtables := subs }
+
 /-- outcome of the forms this file does not model: the driver reports `unmodelled` -/
 def unmodelled : String := "model-unmodelled-form"
 
@@ -705,8 +1016,14 @@ def parseLoop (f : Font) (fuel : Nat) : Nat → List Lookup → PM (List Lookup)
       let l ← readGpos3 f fuel; parseLoop f fuel n (acc ++ [l])
     else if isIdent item (kwGPOS 4) then do
       let l ← readGpos4 f fuel; parseLoop f fuel n (acc ++ [l])
-    else if [kwGSUB 5, kwGSUB 6, kwGPOS 7, kwGPOS 8].any
-        (isIdent item) then throw { line := 0, cls := unmodelled }
+    else if isIdent item (kwGSUB 5) then do
+      let l ← readSeqCtx f fuel 5; parseLoop f fuel n (acc ++ [l])
+    else if isIdent item (kwGSUB 6) then do
+      let l ← readChainedSeqCtx f fuel 6; parseLoop f fuel n (acc ++ [l])
+    else if isIdent item (kwGPOS 7) then do
+      let l ← readSeqCtx f fuel 7; parseLoop f fuel n (acc ++ [l])
+    else if isIdent item (kwGPOS 8) then do
+      let l ← readChainedSeqCtx f fuel 8; parseLoop f fuel n (acc ++ [l])
     else fatal "unexpected"
 
 def zeroTok : Tok := { typ := 0, val := [], line := 0 }
